@@ -2,6 +2,7 @@ package rt
 
 import (
 	"fmt"
+	"github.com/hashicorp/terraform-plugin-framework/attr"
 	"reflect"
 
 	"github.com/hashicorp/terraform-plugin-framework/tfsdk"
@@ -77,7 +78,38 @@ func (x *Ctx) checkAbsent(ms *spec.Msg, mv reflect.Value, obj types.Object, path
 			}
 			continue
 		}
-		if st != fOK || a.Msg == nil {
+		if st != fOK {
+			continue
+		}
+		// a null / unknown element or map value of a known collection: nil where the Go element is a pointer
+		// (judged only when the collection kept its shape)
+		elemNil := func(ev reflect.Value, e attr.Value, where string) {
+			if ev.IsValid() && ev.Kind() == reflect.Ptr && e != nil && absent(e) {
+				x.Count("absent-elements-judged", 1)
+				if !ev.IsNil() {
+					state := "null"
+					if e.IsUnknown() {
+						state = "unknown"
+					}
+					x.Violate(fmt.Sprintf("element-not-nil/%s/%s", a.Class, state), in, fmt.Sprintf("%s is %s but the element is a non-nil pointer", where, state), detail())
+				}
+			}
+		}
+		switch a.Kind {
+		case spec.KList, spec.KObjList:
+			if l, ok := av.(types.List); ok && f.Kind() == reflect.Slice && f.Len() == len(l.Elems) {
+				for i, e := range l.Elems {
+					elemNil(f.Index(i), e, fmt.Sprintf("%s[%d]", p, i))
+				}
+			}
+		case spec.KMap, spec.KObjMap:
+			if m, ok := av.(types.Map); ok && f.Kind() == reflect.Map && f.Len() == len(m.Elems) {
+				for k, e := range m.Elems {
+					elemNil(f.MapIndex(reflect.ValueOf(k)), e, fmt.Sprintf("%s{%s}", p, k))
+				}
+			}
+		}
+		if a.Msg == nil {
 			continue
 		}
 		switch a.Kind {
@@ -165,7 +197,7 @@ func (x *Ctx) rootExcluded(p interface{}) map[string]interface{} {
 	out := map[string]interface{}{}
 	mv := reflect.ValueOf(p).Elem()
 	for _, a := range x.Root.Attrs {
-		if !a.Excluded || a.InEmbedPtr() {
+		if !a.Excluded {
 			continue
 		}
 		if a.Oneof != nil {
@@ -225,7 +257,20 @@ func monC05(x *Ctx) {
 				}
 				x.checkAbsent(x.Root, reflect.ValueOf(q).Elem(), clean, x.Root.Name, in, target+"/"+variant.name, detail)
 				if target == "prefilled" {
-					if after := x.rootExcluded(q); !reflect.DeepEqual(exclBefore, after) {
+					after := x.rootExcluded(q)
+					// an excluded child of a nullable embedded struct is compared while that struct exists on both sides
+					for k := range exclBefore {
+						if _, ok := after[k]; !ok {
+							delete(exclBefore, k)
+						}
+					}
+					for k := range after {
+						if _, ok := exclBefore[k]; !ok {
+							delete(after, k)
+						}
+					}
+					x.Count("excluded-fields-compared", len(after))
+					if !reflect.DeepEqual(exclBefore, after) {
 						x.Violate("excluded-touched", in, fmt.Sprintf("excluded fields changed: %v", DiffPaths(exclBefore, after)), detail())
 					}
 				}
